@@ -14,20 +14,21 @@ pub uninterp spec fn canon(p: PV) -> PV;
 pub open spec fn hit(p: PV, dom: Set<PV>) -> bool { fs_exists(p) || dom.contains(canon(p)) }
 
 // ---- find_module_file -----------------------------------------------------------------------------------------
-/// candidates for the LAST component `last` below directory `cur`, in the order they are tried
+/// the two candidates for the LAST component `last` below directory `cur` (tried: cand_init first, then cand_py)
 pub open spec fn cand_py(cur: PV, last: Seq<char>) -> PV { pv_join(cur, text_pv(last + py_suffix())) }
 pub open spec fn cand_init(cur: PV, last: Seq<char>) -> PV { pv_join(pv_join(cur, text_pv(last)), text_pv(init_name())) }
 /// components i.. of the dotted path, below directory `cur`:
 ///   a non-last component must be a DIRECTORY (nothing else is asked of it: no __init__.py), else no result;
-///   the last component: `<cur>/<last>.py` first, then `<cur>/<last>/__init__.py`; each "is there" test is
-///   disk first, then file_cache (the result is the non-canonical candidate either way)
+///   the last component: the PACKAGE `<cur>/<last>/__init__.py` first, then the module file `<cur>/<last>.py`
+///   (Python's FileFinder order; /repo 6de68a0 — before that the module file was tried first, F-14f); each "is
+///   there" test is disk first, then file_cache (the result is the non-canonical candidate either way)
 pub open spec fn op_find_parts(parts: Seq<Seq<char>>, i: int, cur: PV, dom: Set<PV>) -> Option<PV>
     decreases parts.len() - i
 {
     if i < 0 || i >= parts.len() { None }
     else if i == parts.len() - 1 {
-        if hit(cand_py(cur, parts[i]), dom) { Some(cand_py(cur, parts[i])) }
-        else if hit(cand_init(cur, parts[i]), dom) { Some(cand_init(cur, parts[i])) }
+        if hit(cand_init(cur, parts[i]), dom) { Some(cand_init(cur, parts[i])) }
+        else if hit(cand_py(cur, parts[i]), dom) { Some(cand_py(cur, parts[i])) }
         else { None }
     } else {
         let nxt = pv_join(cur, text_pv(parts[i]));
